@@ -274,6 +274,63 @@ func RunLoad(L *Layout, fs *zsimrt.FS, stubFault string, render bool) (out *Outc
 	return out
 }
 
+// RunLoadPreparsed loads the layout twice from ONE ConfigDetails whose files carry a pre-parsed model
+// (ConfigFile.Config, as a caller gets it from loader.ParseYAML) instead of a file name: the second load sees
+// whatever the first one did to the caller's data.
+func RunLoadPreparsed(L *Layout, fs *zsimrt.FS) (first, second *Outcome, ok bool) {
+	r := zsimrt.Current()
+	if r != nil {
+		r.FS = fs
+	}
+	cd := types.ConfigDetails{WorkingDir: L.WorkingDir, Environment: types.Mapping{}}
+	for k, v := range L.Env {
+		cd.Environment[k] = v
+	}
+	for _, f := range L.Main {
+		txt, present := L.Files[f]
+		if !present || strings.Contains(txt, "\n---\n") {
+			return nil, nil, false
+		}
+		m, err := loader.ParseYAML([]byte(txt))
+		if err != nil {
+			return nil, nil, false
+		}
+		cd.ConfigFiles = append(cd.ConfigFiles, types.ConfigFile{Filename: f, Config: m})
+	}
+	one := func() (out *Outcome) {
+		out = &Outcome{}
+		if r != nil {
+			r.ResetCounters()
+		}
+		defer func() {
+			if v := recover(); v != nil {
+				if b, isBudget := v.(zsimrt.BudgetExceeded); isBudget {
+					out.Budget = b.Error()
+					return
+				}
+				buf := make([]byte, 16384)
+				buf = buf[:runtime.Stack(buf, false)]
+				out.Panic, out.Stack = msgClass(v), string(buf)
+				out.PanicAt = composeFrame(out.Stack)
+			}
+		}()
+		calls := 0
+		stub := stubLoader{L: L, fs: fs, calls: &calls}
+		proj, err := loader.LoadWithContext(context.Background(), cd, loadOptions(L, func(lo *loader.Options) { lo.ResourceLoaders = append(lo.ResourceLoaders, stub) })...)
+		if err != nil {
+			out.Err = err.Error()
+			return out
+		}
+		out.OK, out.Project = true, proj
+		out.YAML, _ = proj.MarshalYAML()
+		out.JSON, _ = proj.MarshalJSON()
+		return out
+	}
+	first = one()
+	second = one()
+	return first, second, true
+}
+
 func envList(m map[string]string) []string {
 	ks := make([]string, 0, len(m))
 	for k := range m {
